@@ -79,6 +79,12 @@ def run(v, tier, rng):
         ns = c["labels"] + [x for x in c["globals"] if x not in c["labels"]]
         ns = list(dict.fromkeys(ns))
         new = []
+        if rng.random() < 0.4:
+            # long names that agree in their first 8 (and more) characters: they must stay distinct symbols
+            stem = rand_ident(rng, rng.choice([8, 9, 12]))
+            fam = [stem + suf for suf in ["", "_", "x", "_" + stem, "21", "27", "_a", "_b", "0", "00"]]
+            rng.shuffle(fam)
+            new = [x for x in fam if x not in ns][:len(ns)]
         while len(new) < len(ns):
             cnd = rand_ident(rng, rng.choice([1, 2, 8, 9, 10, 30]))
             if cnd not in new and cnd not in ns:
@@ -110,14 +116,15 @@ def run(v, tier, rng):
             if cb.get("parse_err") or cb["diag"] or len(ca["out"]) == 0:
                 v.violation("consistent renaming changes the COFF result", w)
             else:
-                coff_items.append("(%s, %s)" % (lib.gbytes(lib.hex2list(ca["out"])), lib.gbytes(lib.hex2list(cb["out"]))))
+                ren = "[" + "; ".join("(%s, %s)" % (lib.gbytes(list(k.encode())), lib.gbytes(list(x.encode()))) for k, x in s.items()) + "]"
+                coff_items.append("(%s, %s, %s)" % (lib.gbytes(lib.hex2list(ca["out"])), lib.gbytes(lib.hex2list(cb["out"])), ren))
                 coff_idx.append(i)
     if coff_items:
-        codes = lib.coq_eval_values("c15c", lib.header("Check.C08 Check.C15", "check_c15_coff"), coff_items, per_file=100)
+        codes = lib.coq_eval_values("c15c", lib.header("Check.C08 Check.C15", "check_c15_coff_ren"), coff_items, per_file=100)
         for k, code in enumerate(codes):
             if code:
                 i = coff_idx[k]
-                v.violation("renaming changes more than name fields and string table in the COFF object (code %d)" % code,
+                v.violation("renaming changes more than name fields and string table in the COFF object, or the names read back are not the renamed ones (code %d; 6 = names)" % code,
                             {"source_a": A.p_program(pairs[i][0]), "source_b": A.p_program(pairs[i][1])})
     items = ["(%s, %s)" % (A.g_program(pairs[i][1]), lib.obs_of(res["b%d" % i])) for i in range(len(pairs)) if pairs[i][4] == "flat"]
     bad = lib.coq_eval("c15m", lib.header(), items, per_file=200)
